@@ -489,6 +489,10 @@ def string_param_table(prog, chk):
     cases = [(None, "/ksi/aggregator", -1), ("/ksi/aggregator-test", "/ksi/aggregator", -1), ("/ksi/aggregator", "/ksi/aggregator", -1), ("/ksi", "/ksi/aggregator", -1),
              ("tester2", "tester", -1), ("secretkey", "secret", -1), ("abc", "xyz", -1), ("127.0.0.1:18081", "127.0.0.1:1808", -1),
              ("anon-long", "anon:key@host", 5), (None, "anon:key@host", 5), ("anon", "anon:key@host", 5), ("a", "", -1), ("", "a", -1)]
+    if getattr(chk, "tier", "quick") == "thorough":
+        words = ["", "a", "ab", "abc", "abd", "b", "/ksi", "/ksi/aggregator", "/ksi/aggregator-test"]
+        cases += [(o, v, -1) for o in words + [None] for v in words if (o, v, -1) not in cases]
+        cases += [(o, "abcdef", k) for o in ("abc", "abcdefgh", None) for k in range(1, 8)]
     for old, val, vlen in cases:
         def getstr(I, p, v, limit=None):
             o = I.as_off(v)
